@@ -2722,7 +2722,7 @@ def C10(ctx, model, tier, models):
 
 # ============================================================================= C11 flatten
 
-def flatten_lemmas(ctx, v):
+def flatten_lemmas(ctx, v, hygiene=True):
     uo = v.by_role("UP")[0]
     ui = v.by_role("UP_INNER")[0]
     tb = v.talkback_cells()
@@ -2765,7 +2765,8 @@ def flatten_lemmas(ctx, v):
             probs.append("guarded")
     ctx.ob("REL-1:1", v.key(ui, "Data", "REL-1:1", "inner-relay-unconditional"), not probs,
            "inner data is relayed unconditionally: a disposed inner is silent by A3 only (no generation check in the code)", v.loc(ui))
-    _cell_hygiene(ctx, v)
+    if hygiene:
+        _cell_hygiene(ctx, v)
 
 
 @prop("C11", "other",
@@ -3674,3 +3675,121 @@ def C20_post(ctx, models, tier):
       assumptions=["Debug impls of user types and Clone of the nursery are pure", "tracing's own functions do not call back into callbag handlers"])
 def C20(ctx, model, tier, models):
     census_operators(ctx, model)
+
+
+# ============================================================================= witnesses (E3)
+
+_WITNESS_CACHE = {}
+
+def run_witnesses(ctx, wanted):
+    """Run the compile-pass / compile_fail doc-test witnesses against the crate under analysis; one obligation per doc-test."""
+    import subprocess, os
+    repo = os.environ.get("CB_REPO", "/repo")
+    here = os.path.dirname(os.path.abspath(__file__))
+    if "out" not in _WITNESS_CACHE:
+        r = subprocess.run([os.path.join(here, "..", "witness.sh"), repo], capture_output=True, text=True)
+        _WITNESS_CACHE["out"] = r.stdout + r.stderr
+        _WITNESS_CACHE["rc"] = r.returncode
+    out = _WITNESS_CACHE["out"]
+    saved = ctx.config
+    ctx.config = "witness"
+    found = {}
+    for line in out.split("\n"):
+        m = re.match(r"^test src/lib.rs - (W\d) \(line (\d+)\) - (compile fail|compile) \.\.\. (\w+)", line)
+        if m:
+            found.setdefault(m.group(1), []).append((int(m.group(2)), m.group(3), m.group(4)))
+    for w in wanted:
+        tests = sorted(found.get(w, []))
+        fails = [t for t in tests if t[1] == "compile fail"]
+        passes = [t for t in tests if t[1] == "compile"]
+        ok = bool(fails) and bool(passes) and all(t[2] == "ok" for t in tests)
+        for n, t in enumerate(tests):
+            ctx.ob("witness", "%s:%s#%d" % (w, "compile_fail" if t[1] == "compile fail" else "twin", n), t[2] == "ok",
+                   "doc-test witness %s (%s) %s" % (w, t[1], t[2]), "engines/witness/src/lib.rs:%d" % t[0])
+        ctx.ob("witness", "%s:paired" % w, ok, "%s: %d compile_fail witness(es) with %d compiling twin(s)" % (w, len(fails), len(passes)) if tests else
+               "%s: witness doc-tests did not run: %s" % (w, out[-300:]))
+    ctx.config = saved
+
+
+def witness_post(names):
+    def post(ctx, models, tier):
+        if tier == "thorough":
+            run_witnesses(ctx, names)
+        return {}
+    return post
+
+for _pid, _ws in (("C05", ["W5"]), ("C13", ["W2", "W3"]), ("C17", ["W1"]), ("C18", ["W3"])):
+    REGISTRY[_pid]["post"] = witness_post(_ws)
+
+
+# ============================================================================= C06
+
+def for_each_lemmas(ctx, v):
+    h = v.by_role("UP")[0]
+    tb = v.talkback_cells()
+    # H: store talkback, then exactly one pull
+    probs = []
+    for p in returning(v.arm(h, "Handshake")):
+        sig = send_sig(v, h, "Handshake", p)
+        st = [i for i, e in ev_effects(p) if e.kind == "cell" and e.op == "store" and e.value[0] == "agg" and e.value[2] == "Option::Some"]
+        if [(s[0], s[1]) for s in sig] != [("UPTB", "Pull")] or not st or st[0] > sig[0][4]:
+            probs.append("greeting arm is not: store talkback; pull once")
+    ctx.ob("REL-1:1", v.key(h, "Handshake", "REL-1:1", "store-then-pull"), not probs, "on greeting the talkback is stored and pulled exactly once" if not probs else probs[0], v.loc(h))
+    # D: f(data) once, by move, then exactly one pull
+    probs = []
+    for p in returning(v.arm(h, "Data")):
+        sig = send_sig(v, h, "Data", p)
+        ucs = [(i, e) for i, e in ev_effects(p) if e.kind == "usercall"]
+        if len(ucs) != 1 or ucs[0][1].args != [incoming_payload(h, "Data")] or not is_factory_param(v, strip_clone(ucs[0][1].fn)):
+            probs.append("f is not called exactly once on the incoming datum")
+            continue
+        if [(s[0], s[1]) for s in sig] != [("UPTB", "Pull")] or sig[0][4] < ucs[0][0]:
+            probs.append("the next item is not requested exactly once, after f returned")
+    ctx.ob("REL-1:1", v.key(h, "Data", "REL-1:1", "consume-then-pull"), not probs, "each datum: f(d) once, then exactly one Pull" if not probs else probs[0], v.loc(h))
+    lemma_rel_silent(ctx, v, h, "Error")
+    lemma_rel_silent(ctx, v, h, "Terminate")
+
+
+def C06_post(ctx, models, tier):
+    run_witnesses(ctx, ["W4"])
+    return {}
+
+
+@prop("C06", "other",
+      "This property quantifies over programs and input values; no static argument in reach decides 'the received list equals f(xs)' "
+      "as such. Decided are the clauses that are shapes of the code, in both configurations: (a) pipe! is left-to-right application - "
+      "compile_fail witness W4 with compiling twins (2-, 3-, 4-stage and trailing-comma forms compile only in the right order), run "
+      "against the current tree in both tiers; (b) each stage's per-datum transfer function is the list function's step - the C07 "
+      "lemmas for map, filter, scan, take, skip, the C09 lemmas for concat (append) and the C11 lemmas for flatten; (c) the driver "
+      "for_each: on greeting store and pull once; per datum exactly one f(d) on the incoming datum and then exactly one Pull; Error / "
+      "Terminate arms silent; (d) demand is conserved by every stage (C14 lemmas) and served by from_iter with one iterator advance "
+      "and one send per recorded pull, never advancing without a pull (C15 lemmas), take dropping pulls once taken == max. The "
+      "per-stage results compose by assume/guarantee (each stage's lemmas are relative to A1-A7 for its upstream and establish them "
+      "for its output); the element-wise equality is the usual induction on the input, written in DESIGN.md, NOT mechanised: the "
+      "check decides necessary structural conditions and the composition argument, not the list equality.",
+      post=C06_post,
+      axioms=["A1", "A2", "A3", "A5", "A6", "A7"])
+def C06(ctx, model, tier, models):
+    census_operators(ctx, model)
+    seen = set()
+    for v in views(model):
+        f = v.family
+        if f in ("map", "filter", "scan", "take", "skip"):
+            transfer_lemmas(ctx, v)
+            demand_lemmas(ctx, v)
+            seen.add(f)
+        elif f == "concat":
+            concat_lemmas(ctx, v)
+            seen.add(f)
+        elif f == "flatten":
+            flatten_lemmas(ctx, v, hygiene=False)   # the stale-cell window (KF-4) is reported under C04 / C11
+            seen.add(f)
+        elif f == "from_iter":
+            from_iter_lemmas(ctx, v)
+            seen.add(f)
+        elif f == "for_each":
+            for_each_lemmas(ctx, v)
+            demand_lemmas(ctx, v)
+            seen.add(f)
+    ctx.ob("CEN-H", "pipeline-stages", seen == {"map", "filter", "scan", "take", "skip", "concat", "flatten", "from_iter", "for_each"}, "stages analysed: %s" % sorted(seen))
+    ctx.floor("REL-1:1", 20)
